@@ -272,7 +272,7 @@ class C16(core.Prop):
                                             'tab\tbed', '日本', '007', '1.5', 'true', ' lead', 'trail ', 'NA', 'null',
                                             'ÿ', 'multi\nline',
                                             # Latin-1's C1 range (0x80-0x9F: other characters in Windows-1252, five undefined)
-                                            'a\x91b', 'n\x80x', 'k\x9d', '\x81z']))
+                                            'a\x91b', 'n\x80x', 'k\x9d', '\x81z', 'flat #4', '#1 hit']))
                 else:
                     toks = col['toks'] or (['yyyy', 'MM', 'dd'] if typ == 'date' else ['yyyy', 'MM', 'dd', 'HH', 'mm', 'ss'])
                     vals.append(rand_instant(rng, toks))
@@ -460,6 +460,8 @@ class C16(core.Prop):
                     dialect['header'] = False
                 if how != 2:
                     dialect['headerRowCount'] = 0
+            if case['nrow'] % 4 == 1:
+                dialect['commentPrefix'] = '#'      # (comments are whole lines that begin with the prefix; none is written here)
             md = {'@context': 'http://www.w3.org/ns/csvw', 'url': 't.csv',
                   'tableSchema': {'columns': columns}}
             if dialect:
